@@ -441,6 +441,17 @@ def job_start(spec):
     gvals = {f: Opaque('engine.' + f) for f in gf}
     tsn = 'EventTime' if event_time else 'ProcessingTime'
     gvals.update({'nfa': [nvals[f] for f in nf], 'time_semantics': Enum('TimeSemantics', BitVecVal(ts_var.index(tsn), 64), {tsn: []})})
+    # the rest of the engine the start decision must NOT depend on: whether the engine is partitioned, and one in-flight run (Kleene or not) whose
+    # stack of two entries may end in this very event (the event has just advanced it) — symbolic, so a start that consults them forks here
+    if 'partition_by' in gf: gvals['partition_by'] = Enum('Option', If(z3.Bool('engine_partitioned'), BitVecVal(1, 64), BitVecVal(0, 64)), {'Some': [V.StrTok(BitVec('engine_partition_field', 16))], 'None': []})
+    if 'runs' in gf and {'stack', 'kleene_capture'} <= set(rf):
+        ovals = {f: Opaque('other_run.' + f) for f in rf}
+        other_ev, _oty, oc = mk_event('o', classes); cons.append(oc)
+        ovals['kleene_capture'] = Enum('Option', If(z3.Bool('other_run_is_kleene'), BitVecVal(1, 64), BitVecVal(0, 64)), {'Some': [Opaque('other_run.capture')], 'None': []})
+        ovals['stack'] = ListModel([[other_ev, Opaque('other.alias0'), Opaque('other.ts0')], [Ptr(event.c, event.k), Opaque('other.alias1'), Opaque('other.ts1')]])
+        gvals['runs'] = ListModel([[ovals[f] for f in rf]])
+        ex.hooks.insert(0, (re.compile(r'^<Vec<.*> as (?:std::ops::)?Deref>::deref$'), lambda ex, st, callee, args: args[0] if isinstance(ex.deref(args[0]), ListModel) else NotImplemented))
+        ex.hooks.insert(0, (re.compile(r'^Arc::<(?:event::)?Event>::ptr_eq$'), lambda ex, st, callee, args: z3.Bool('other_run_top_is_this_event')))
     engine = [gvals[f] for f in gf]
     st0 = State(); st0.path.assume(And(*cons))
     fns = [x for x in _MODS[0].funcs if re.search(r'^sase::<impl at [^>]*>::try_start_run_shared$', x)]
